@@ -76,6 +76,12 @@ Theorem C07_required_entries_from_source :
   = ["metadata"; "end"; "gecko_codes"]%string.
 Proof. exact slpp_read_required_from_source. Qed.
 
+From Peppi Require Proofs.ReaderTies.
+(* the reader model these theorems speak about is the one regenerated from the source on this run: one-shot read, every incremental
+   entry point, the event dispatch with the splitter, the Game Start wiring, the metadata reader (Proofs/ReaderTies.v reader_tied) *)
+Theorem C07_reader_is_the_source : ReaderTies.reader_tied.
+Proof. exact ReaderTies.reader_tied_holds. Qed.
+
 Print Assumptions C07_read_extends.
 Print Assumptions C07_truncated_full.
 Print Assumptions C07_truncated_skip.
@@ -87,3 +93,4 @@ Print Assumptions C07_frames_arm_from_source.
 Print Assumptions C07_short_frames_entry_is_error.
 Print Assumptions C07_slpp_reader_assembly_from_source.
 Print Assumptions C07_required_entries_from_source.
+Print Assumptions C07_reader_is_the_source.
